@@ -15,10 +15,12 @@ def run(ctx):
                        "non-sharing unconstrained pods, an assignment of its tasks to nodes within truth-idle capacity and queue rules; "
                        "non-trivial = the scenario has pending pods")
     ctx.assumptions += ["work conservation is judged for jobs of whole-GPU / cpu-only pods without placement constraints; sharing pods and the "
-                        "reclaim/preempt progress is judged on generated members of the unobstructed single-claimant class (profile unobs), the "
-                        "antecedent being re-derived by the spec from the scenario"]
+                        "reclaim/preempt progress is judged on generated members of the unobstructed class: profile unobs (K identical claimants of one queue) and "
+                        "profile unobs2 (claimants of several queues, priorities and preemptibilities, bystanders that cannot be served; judged claimant by "
+                        "claimant: C05_ReclaimEach / C05_PreemptEach), the antecedent being re-derived by the spec from the scenario",
+                        "the harness process runs many scenarios with the same action objects, as the scheduler runs many cycles: state kept across cycles by an action shows up as interference between scenarios"]
     n = 1200 if ctx.quick else 12000
-    st_cluster.run_stage(ctx, PREFIXES, [("mixed", n // 2), ("fifo", n // 8), ("slots", n // 8), ("unobs", n // 4)], nontrivial_fn=nontrivial)
+    st_cluster.run_stage(ctx, PREFIXES, [("mixed", n // 2), ("fifo", n // 8), ("slots", n // 8), ("unobs", n // 4), ("unobs2", n // 2)], nontrivial_fn=nontrivial)
 
 
 def replay(ctx, obj):
